@@ -1,4 +1,6 @@
 """C12 — lenient options are a conservative extension relaxing only surrogate escapes."""
+import re
+
 from .. import entry, parsercheck, static
 from ..absint import Agg, Conc, State, Undecided
 
@@ -9,12 +11,56 @@ def run(ctx, res):
     res.rules_run += ["C12.upper/C12.lower (P(o) = R(o) for the three lenient valuations: language, outputs, code map, errors; deviations that the strict parser shows identically are left to C01/C02/C05/C07, deviations of one mode only are reported)",
                       "C12.flow (the two flags are read only inside the string scanner)",
                       "C12.default (Options::default() = strict() = both false; flexible() = both true)"]
-    parsercheck.apply(ctx, res, ["C0", "E2."], strict_only=False, lenient_only=True, relative=True)
+    parsercheck.apply(ctx, res, ["C0", "E2."], strict_only=False, lenient_only=True, relative=True, finding_filter=not_c12)
     flow(ctx, res)
     defaults(ctx, res)
     from . import C01
     res.rules_run.append("C12.entry (every `_with` entry point hands its options unchanged to the parser and takes no decision of its own on a flag: on every path to the core both flags are unconstrained)")
     C01.entry_rule(ctx, res, rule="C12.entry", only_with_options=True)
+
+
+def unpaired_surrogate_escape(witness):
+    """True if the witness input (a Python string in which a JSON escape reads \\uXXXX) contains a \\u escape denoting an
+    unpaired surrogate that is already known to be unpaired (a high surrogate at the very end may still get its low half)."""
+    w = witness if isinstance(witness, str) else ""
+    i, pending = 0, False
+    while i < len(w):
+        if w[i] == "\\" and i + 1 < len(w):
+            m = re.match(r"u([0-9a-fA-F]{4})", w[i + 1:])
+            if m:
+                u = int(m.group(1), 16)
+                i += 6
+                if 0xDC00 <= u <= 0xDFFF:
+                    if not pending:
+                        return True
+                    pending = False
+                    continue
+                if pending:
+                    return True
+                pending = 0xD800 <= u <= 0xDBFF
+                continue
+            if pending:
+                return True
+            i += 2
+            continue
+        if pending:
+            return True
+        i += 1
+    return False
+
+
+def not_c12(f, strict):
+    """What the statement of C12 does not speak about (returns the reason, or None if the finding is C12's business).
+    C12 states: strict-valid documents give the identical value and code map under every option combination; the lenient
+    options accept only R(o); each relaxed escape decodes to one U+FFFD, pairs still combine, the options are independent.
+    It does not state which error a lenient parser reports when both it and R(o) reject, and the code map of a document
+    that is accepted only leniently is C05's clause (C05 runs all four valuations)."""
+    key = f["key"]
+    if key.startswith("error/"):
+        return "both reject; which error a lenient parser reports is stated by no clause of C12"
+    if f["rule"].startswith("C05.") and unpaired_surrogate_escape(f.get("witness")):
+        return "code map of a document accepted only leniently: C05's clause"
+    return None
 
 
 def flow(ctx, res):
